@@ -300,7 +300,7 @@ def audit_queries(ctx, dn, G, m, tag="", ts=None, full=True):
 
                 def dev(known=known, S=S, nb=nb):
                     # D-A: an edge n->nbr is skipped when nbr was iterated (as a source) before n
-                    order = list(S) if nb is None else known
+                    order = [n for n in G.nodes() if n in S] if nb is None else known
                     seen, out = set(), []
                     for n in order:
                         for nbr in S.successors(n):
